@@ -73,21 +73,25 @@ def rateElem (l : Bool) (sr : Nat) : List Byte :=
 /-- `datasize = psf->sf.frames * psf->sf.channels * psf->bytewidth` (sf_count_t) -/
 def datasize (c : Cfg) (f : Fields) : Int := f.frames * c.ch * bytewidth c.codec
 
-/-- the 72 bytes from the version word to the rate element (offsets 124 … 199) -/
+/-- version 0x0100 and the endian marker (offsets 124 … 127) -/
+def verMark (l : Bool) : List Byte := w16 l 0x0100 ++ marker l
+
+/-- the front of a matrix element: miMATRIX size | miUINT32 8 : 6 0 | miINT32 8 : rows cols | miINT8 (the name's type word) -/
+def mxFields (l : Bool) (size rows cols : Int) : List (List Byte) :=
+  [w32 l 14, w32 l size, w32 l 6, w32 l 8, w32 l 6, w32 l 0, w32 l 5, w32 l 8, w32 l rows, w32 l cols, w32 l 1]
+
+/-- the 76 bytes from the version word to the rate element (offsets 124 … 199) -/
 def hdrA (c : Cfg) : List Byte :=
   let l := c.little
-  w16 l 0x0100 ++ (marker l ++
-  (w32 l 14 ++ (w32 l 64 ++ (w32 l 6 ++ (w32 l 8 ++ (w32 l 6 ++ (w32 l 0 ++
-  (w32 l 5 ++ (w32 l 8 ++ (w32 l 1 ++ (w32 l 1 ++
-  (w32 l 1 ++ (w32 l 10 ++ (srName ++ rateElem l c.sr))))))))))))))
+  verMark l ++ ((mxFields l 64 1 1).flatten ++ (w32 l 10 ++ (srName ++ rateElem l c.sr)))
+
+/-- the data element's size field -/
+def dataField (c : Cfg) (f : Fields) : Int := if datasize c f > 0x7FFFFFFF then 0x7FFFFFFF else datasize c f
 
 /-- the 64 bytes of the audio matrix up to the audio (offsets 200 … 263) -/
 def hdrB (c : Cfg) (f : Fields) : List Byte :=
   let l := c.little
-  w32 l 14 ++ (w32 l (datasize c f + 64) ++ (w32 l 6 ++ (w32 l 8 ++ (w32 l 6 ++ (w32 l 0 ++
-  (w32 l 5 ++ (w32 l 8 ++ (w32 l c.ch ++ (w32 l f.frames ++
-  (w32 l 1 ++ (w32 l 8 ++ (wdName ++
-  (w32 l (encoding c.codec) ++ w32 l (if datasize c f > 0x7FFFFFFF then 0x7FFFFFFF else datasize c f))))))))))))))
+  (mxFields l (datasize c f + 64) c.ch f.frames).flatten ++ (w32 l 8 ++ (wdName ++ (w32 l (encoding c.codec) ++ w32 l (dataField c f))))
 
 /-- mat5_write_header -/
 def hdr (c : Cfg) (f : Fields) : List Byte := c.text ++ (hdrA c ++ hdrB c f)
